@@ -534,8 +534,7 @@ Definition clear_archetype (s : mst) (ai : nat) : res mst :=
 
 (* EntityManager::clear: entity_manager.cpp:79-89 *)
 Definition clear_all (s : mst) : res mst :=
-  let s1 := set_free (set_locs (set_slots s []) []) 0 0 in
-  fold_res arch_clear (seq 0 (length (archs s1))) s1.
+  fold_res clear_archetype (seq 0 (length (archs s))) s.
 
 (* location of an entity as the unchecked paths read it *)
 Definition loc_arch (s : mst) (h : handle) : res (nat * nat) :=
